@@ -167,19 +167,22 @@ func c04Generated(c *mon.Child) {
 			fname := []string{"gen.txt", "", "d/é"}[ii%3]
 			var toks []lexer.Token
 			var lerr error
+			var buf []byte
 			p, _, _ := mon.Guard(func() {
 				var lx lexer.Lexer
 				switch ii % 3 {
 				case 0:
 					lx, lerr = gen.(lexer.StringDefinition).LexString(fname, in)
 				case 1:
-					lx, lerr = gen.(lexer.BytesDefinition).LexBytes(fname, []byte(in))
+					buf = []byte(in)
+					lx, lerr = gen.(lexer.BytesDefinition).LexBytes(fname, buf)
 				default:
 					lx, lerr = gen.Lex(fname, strings.NewReader(in))
 				}
 				if lerr == nil {
 					toks, lerr = lexer.ConsumeAll(lx)
 				}
+				c04Scribble(buf)
 			})
 			if p || lerr != nil {
 				c.Feature("generated_inputs_not_lexable")
@@ -199,6 +202,101 @@ func c04Generated(c *mon.Child) {
 			}
 			c.End(key)
 		}
+	}
+}
+
+// c04Scribble overwrites a byte slice the caller handed to LexBytes: a token is a
+// value of its own, what the caller does with its buffer afterwards must not reach it.
+func c04Scribble(b []byte) {
+	for i := range b {
+		b[i] = 'X'
+	}
+}
+
+// c04ScannerPairs advances two lexers of one text/scanner definition alternately:
+// each has to deliver its own input's tokens at its own input's positions.
+func c04ScannerPairs(c *mon.Child, custom lexer.Definition) {
+	r := c.RNG("scanpairs")
+	for i := 0; i < c.N(400, 4000); i++ {
+		a, b := c04ScanInput(r), c04ScanInput(r)
+		key := fmt.Sprintf("sp%d", i)
+		if !c.Want(key) {
+			continue
+		}
+		c.Begin(key, fmt.Sprintf("text/scanner pair <- %q / %q", a, b))
+		c.Eval(1)
+		def, how := lexer.Definition(lexer.TextScannerLexer), "TextScannerLexer"
+		if i%2 == 1 {
+			def, how = custom, "NewTextScannerLexer(comments kept)"
+		}
+		var ta, tb []lexer.Token
+		var ea, eb error
+		p, pv, _ := mon.Guard(func() {
+			var la, lb lexer.Lexer
+			if la, ea = def.Lex("a.go", strings.NewReader(a)); ea != nil {
+				return
+			}
+			// the first lexer is part-way through its input when the second one is made
+			for k := 0; k < i%4; k++ {
+				t, err := la.Next()
+				if err != nil {
+					ea = err
+					return
+				}
+				ta = append(ta, t)
+				if t.EOF() {
+					break
+				}
+			}
+			if lb, eb = def.Lex("b.go", strings.NewReader(b)); eb != nil {
+				return
+			}
+			doneA := len(ta) > 0 && ta[len(ta)-1].EOF()
+			doneB := false
+			for !doneA || !doneB {
+				if !doneA {
+					t, err := la.Next()
+					if err != nil {
+						ea = err
+						return
+					}
+					ta = append(ta, t)
+					doneA = t.EOF()
+				}
+				if !doneB {
+					t, err := lb.Next()
+					if err != nil {
+						eb = err
+						return
+					}
+					tb = append(tb, t)
+					doneB = t.EOF()
+				}
+				if len(ta)+len(tb) > len(a)+len(b)+4 {
+					return
+				}
+			}
+		})
+		if p {
+			c.Violation("", key, how+": interleaved lexers panicked: "+pv, map[string]interface{}{"a": a, "b": b})
+			c.End(key)
+			continue
+		}
+		if ea != nil || eb != nil {
+			c.Feature("scanner_pairs_not_lexable")
+			c.End(key)
+			continue
+		}
+		if d := c04Oracle(ta, a, "a.go", false); d != "" {
+			c.Violation("", key, fmt.Sprintf("%s, two lexers of one definition advanced alternately, first lexer: %s | inputs: %q / %q", how, d, a, b), map[string]interface{}{"a": a, "b": b, "difference": d})
+		} else if d := c04Oracle(tb, b, "b.go", false); d != "" {
+			c.Violation("", key, fmt.Sprintf("%s, two lexers of one definition advanced alternately, second lexer: %s | inputs: %q / %q", how, d, a, b), map[string]interface{}{"a": a, "b": b, "difference": d})
+		}
+		c.Feature("scanner_lexer_pairs_advanced_alternately")
+		if len(ta) > 2 && len(tb) > 2 {
+			c.Nontrivial("scanpair\x00" + a + "\x00" + b)
+		}
+		c.End(key)
 	}
 }
 
@@ -243,12 +341,20 @@ func c04Child(c *mon.Child) {
 			fname := []string{"f.txt", "", "dir/é.x"}[ii%3]
 			var toks []lexer.Token
 			var lerr error
+			var scribble []byte
 			p, pv, st := mon.Guard(func() {
 				var lx lexer.Lexer
 				switch ii % 4 {
 				case 0:
 					lx, lerr = def.LexString(fname, in)
 				case 1:
+					if bd, ok := lexer.Definition(def).(lexer.BytesDefinition); ok && ii%8 == 5 {
+						// a definition that takes bytes: the caller's buffer is the caller's again afterwards
+						scribble = []byte(in)
+						lx, lerr = bd.LexBytes(fname, scribble)
+						c.Feature("runtime_definitions_lexed_through_LexBytes")
+						break
+					}
 					lx, lerr = def.Lex(fname, strings.NewReader(in))
 				case 3:
 					// a reader the caller has already read a header from: lexing starts where the reader stands
@@ -262,6 +368,7 @@ func c04Child(c *mon.Child) {
 				if lerr == nil {
 					toks, lerr = lexer.ConsumeAll(lx)
 				}
+				c04Scribble(scribble)
 			})
 			if p {
 				// Totality is C07's business; here only successful lexing is judged.
@@ -342,6 +449,9 @@ func c04Child(c *mon.Child) {
 	custom := lexer.NewTextScannerLexer(func(s *scanner.Scanner) {
 		s.Mode = scanner.ScanIdents | scanner.ScanInts | scanner.ScanFloats | scanner.ScanStrings | scanner.ScanRawStrings | scanner.ScanChars | scanner.ScanComments
 	})
+	if c.Batch == 0 {
+		c04ScannerPairs(c, custom)
+	}
 	for i := 0; i < nScan; i++ {
 		in := c04ScanInput(r)
 		if i == 0 {
@@ -357,6 +467,7 @@ func c04Child(c *mon.Child) {
 		var toks []lexer.Token
 		var lerr error
 		var how string
+		var sbuf []byte
 		p, pv, _ := mon.Guard(func() {
 			var lx lexer.Lexer
 			switch i % 6 {
@@ -368,7 +479,8 @@ func c04Child(c *mon.Child) {
 				lx = lexer.LexString(fname, in)
 			case 2:
 				how = "lexer.LexBytes"
-				lx = lexer.LexBytes(fname, []byte(in))
+				sbuf = []byte(in)
+				lx = lexer.LexBytes(fname, sbuf)
 			case 3:
 				how = "lexer.Lex (reader already read from)"
 				rd := bytes.NewReader([]byte("#!header\n" + in))
@@ -389,6 +501,7 @@ func c04Child(c *mon.Child) {
 			if lerr == nil {
 				toks, lerr = lexer.ConsumeAll(lx)
 			}
+			c04Scribble(sbuf)
 		})
 		if p {
 			c.Violation("", key, how+" panicked: "+pv, map[string]interface{}{"input": in})
